@@ -21,7 +21,7 @@ package identity
 //@   ensures old(i.versions[0].id) != entity.UnsetId ==> i.versions[0].id == old(i.versions[0].id)
 
 //@ func (*Identity).Merge
-//@   props C09 C02 C15
+//@   props C09 C02 C15 C11
 //@   ensures [own-namespace-only] forall k string :: { (k in repository.refs) } !strings.HasPrefix(k, "refs/identities/") ==> (k in repository.refs) == (k in old(repository.refs)) && repository.refs[k] == old(repository.refs)[k]
 //@   nopanic
 //@   modifies i.versions, elems(i.versions), repository.refs, i.versions[0].id, other.versions[0].id
@@ -82,13 +82,22 @@ package identity
 //@   props C07
 //@   nopanic
 //@   requires [receiver] k != nil
+//@   modifies nothing
+//@   opt trusted_frame
+//@   ensures [accepted-key-has-a-public-part] result == nil ==> k.public != nil
 
+// ... and what it accepts is well formed (C09, C07, C16): a name or a login, both - and the email - single lines
+// without control characters (text.oneLineFrom over all runes), a nonce of 20..64 bytes, no nil key.
 //@ func (*version).Validate
-//@   props C07 C09
+//@   props C07 C09 C16
 //@   nopanic
 //@   requires [receiver] v != nil
 //@   modifies nothing
 //@   opt trusted_frame
+//@   ensures [accepted-version-is-well-formed] result == nil ==> !(text.Empty(v.name) && text.Empty(v.login)) && text.oneLineFrom(v.name, 0) && text.oneLineFrom(v.login, 0) && text.oneLineFrom(v.email, 0) && len(v.nonce) >= 20 && len(v.nonce) <= 64 && (v.avatarURL == "" || text.ValidUrl(v.avatarURL))
+//@   ensures [accepted-version-has-no-nil-key] result == nil ==> (forall k int :: { v.keys[k] } 0 <= k && k < len(v.keys) ==> v.keys[k] != nil)
+//@   loop 1
+//@     invariant forall k int :: { v.keys[k] } 0 <= k && k <= rangeindex ==> v.keys[k] != nil
 
 // Reading an identity: every commit of the chain must hold exactly one tree entry, named "version";
 // anything else (missing, duplicated or extra entries) is refused (C07). Never panics on stored data.
@@ -116,9 +125,11 @@ package identity
 //@   requires i != nil && (forall k int :: { i.versions[k] } 0 <= k && k < len(i.versions) ==> i.versions[k] != nil)
 //@   let n = len(i.versions)
 //@   ensures [has-version]    result == nil ==> n > 0
+//@   ensures [accepted-identity-has-clean-versions] result == nil ==> (forall k int :: { i.versions[k] } 0 <= k && k < n ==> text.oneLineFrom(i.versions[k].name, 0) && text.oneLineFrom(i.versions[k].login, 0) && text.oneLineFrom(i.versions[k].email, 0) && !(text.Empty(i.versions[k].name) && text.Empty(i.versions[k].login)))
 //@   ensures [clocks-kept-and-monotone] result == nil ==> (forall k int :: { i.versions[k] } 0 <= k && k + 1 < n ==> (forall name string :: { (name in i.versions[k].times) } (name in i.versions[k].times) ==> (name in i.versions[k + 1].times) && i.versions[k + 1].times[name] >= i.versions[k].times[name]))
 //@   loop 1
 //@     invariant rangeindex < n && lastTimes != nil && fresh(lastTimes)
+//@     invariant [clean-so-far] forall k int :: { i.versions[k] } 0 <= k && k <= rangeindex ==> text.oneLineFrom(i.versions[k].name, 0) && text.oneLineFrom(i.versions[k].login, 0) && text.oneLineFrom(i.versions[k].email, 0) && !(text.Empty(i.versions[k].name) && text.Empty(i.versions[k].login))
 //@     invariant forall k int :: { i.versions[k] } 0 <= k && k < n ==> i.versions[k] != nil && i.versions[k] == old(i.versions[k]) && i.versions[k].times == old(i.versions[k].times) && !fresh(i.versions[k].times)
 //@     invariant forall k int :: { i.versions[k] } 0 <= k && k < n ==> (forall name string :: { (name in i.versions[k].times) } (name in i.versions[k].times) == old(name in i.versions[k].times) && i.versions[k].times[name] == old(i.versions[k].times[name]))
 //@     invariant rangeindex < 0 ==> (forall name string :: { (name in lastTimes) } !(name in lastTimes))
@@ -137,6 +148,9 @@ package identity
 //@   props C02 C09 C15
 //@   requires repo != nil
 //@   ensures [own-namespace-only] forall k string :: { (k in repository.refs) } !strings.HasPrefix(k, "refs/identities/") ==> (k in repository.refs) == (k in old(repository.refs)) && repository.refs[k] == old(repository.refs)[k]
+// C09/C07: an identity nobody here has seen yet becomes local only after it passed validation (clocks kept and
+// monotone over its versions, every version well formed) - the same gate as an update of a known identity
+//@   assert at `err := repo.CopyRef(remoteRef, localRef)` [only-validated-identities-become-local] len(remoteIdentity.versions) > 0 && (forall k int :: { remoteIdentity.versions[k] } 0 <= k && k < len(remoteIdentity.versions) ==> text.oneLineFrom(remoteIdentity.versions[k].login, 0) && text.oneLineFrom(remoteIdentity.versions[k].name, 0)) && (forall k int :: { remoteIdentity.versions[k] } 0 <= k && k + 1 < len(remoteIdentity.versions) ==> (forall name string :: { (name in remoteIdentity.versions[k].times) } (name in remoteIdentity.versions[k].times) ==> (name in remoteIdentity.versions[k + 1].times) && remoteIdentity.versions[k + 1].times[name] >= remoteIdentity.versions[k].times[name]))
 //@   check [invalid-does-not-stop] sentcount(out) == len(remoteRefs) || (sentcount(out) > 0 && (sentat(out, sentcount(out) - 1).Status == entity.MergeStatusError || sentat(out, sentcount(out) - 1).Err != nil))
 //@   loop 1
 //@     invariant [own-namespace-only] forall k string :: { (k in repository.refs) } !strings.HasPrefix(k, "refs/identities/") ==> (k in repository.refs) == (k in old(repository.refs)) && repository.refs[k] == old(repository.refs)[k]
@@ -239,3 +253,83 @@ package identity
 //@   loop 1
 //@     invariant [removed-so-far] forall j int :: { localIds[j] } 0 <= j && j <= rangeindex ==> !(("refs/identities/" + string(localIds[j])) in repository.refs) && (forall r string :: { (r in repository.remotes) } (r in repository.remotes) ==> !(("refs/remotes/" + r + "/identities/" + string(localIds[j])) in repository.refs))
 //@     invariant [only-shrinks] forall q string :: { (q in repository.refs) } (q in repository.refs) ==> (q in old(repository.refs))
+
+// Validating an identity (any implementation) only reads it.
+//@ func Interface.Validate
+//@   modifies nothing
+
+// Metadata of an identity (C09: histories are append-only; C04: an id, once handed out, stays): setting metadata
+// never changes a version whose content is fixed - a committed one, or the first version once the identity's id
+// (which is derived from it) has been asked for. It goes to a new version that shares no map with the old one.
+//@ func (*Key).Clone
+//@   requires k != nil && k.public != nil
+//@   modifies nothing
+//@   opt trusted_frame
+//@   ensures result != nil && fresh(result) && result.public != nil
+//@ func (*Identity).lastVersion
+//@   props C09
+//@   requires [has-version] i != nil && len(i.versions) > 0
+//@   modifies nothing
+//@   ensures result == i.versions[len(i.versions) - 1]
+//@ func (*version).Clone
+//@   props C09 C04
+//@   requires v != nil && (forall k int :: { v.keys[k] } 0 <= k && k < len(v.keys) ==> v.keys[k] != nil && v.keys[k].public != nil)
+//@   modifies nothing
+//@   opt trusted_frame
+//@   ensures [fresh-copy] result != nil && fresh(result) && result.commitHash == "" && result.id == entity.UnsetId
+//@   ensures [shares-no-map] (result.metadata == nil || fresh(result.metadata)) && result.times != nil && fresh(result.times)
+//@   loop 1
+//@     invariant clone.times != nil && fresh(clone.times) && clone.commitHash == "" && clone.id == entity.UnsetId && clone.metadata == v.metadata && clone.keys == v.keys
+//@   loop 2
+//@     invariant clone.times != nil && fresh(clone.times) && clone.commitHash == "" && clone.id == entity.UnsetId && clone.metadata == v.metadata
+//@     invariant clone.keys != nil && fresh(clone.keys) && len(clone.keys) == len(v.keys)
+//@     invariant forall k int :: { v.keys[k] } 0 <= k && k < len(v.keys) ==> v.keys[k] != nil && v.keys[k].public != nil
+//@ func (*version).SetMetadata
+//@   props C09 C04
+//@   requires v != nil
+//@   modifies v.metadata, mapof(v.metadata)
+//@   ensures [set] v.metadata != nil && (key in v.metadata) && v.metadata[key] == value
+//@   ensures [same-map-if-any] old(v.metadata) != nil ==> v.metadata == old(v.metadata)
+//@   ensures [fresh-map-otherwise] old(v.metadata) == nil ==> fresh(v.metadata)
+//@ func (*Identity).SetMetadata
+//@   props C09 C04
+//@   requires i != nil && len(i.versions) > 0 && (forall k int :: { i.versions[k] } 0 <= k && k < len(i.versions) ==> i.versions[k] != nil && (forall j int :: { i.versions[k].keys[j] } 0 <= j && j < len(i.versions[k].keys) ==> i.versions[k].keys[j] != nil && i.versions[k].keys[j].public != nil))
+//@   requires [maps-unshared] forall k int :: { i.versions[k] } forall l int :: { i.versions[l] } 0 <= k && k < l && l < len(i.versions) ==> i.versions[k] != i.versions[l] && (i.versions[k].metadata != nil ==> i.versions[k].metadata != i.versions[l].metadata)
+//@   ensures [maps-unshared] forall k int :: { i.versions[k] } forall l int :: { i.versions[l] } 0 <= k && k < l && l < len(i.versions) ==> i.versions[k] != i.versions[l] && (i.versions[k].metadata != nil ==> i.versions[k].metadata != i.versions[l].metadata)
+//@   let n0 = old(len(i.versions))
+//@   ensures [versions-kept] len(i.versions) >= n0 && (forall k int :: { i.versions[k] } 0 <= k && k < n0 ==> i.versions[k] == old(i.versions[k]) && i.versions[k].id == old(i.versions[k].id))
+//@   ensures [fixed-versions-keep-their-metadata] forall k int :: { i.versions[k] } 0 <= k && k < n0 && (old(i.versions[k].commitHash) != "" || (n0 == 1 && old(i.versions[0].id) != entity.UnsetId && old(i.versions[0].id) != "")) ==> (forall key string :: { (key in i.versions[k].metadata) } (i.versions[k].metadata != nil && (key in i.versions[k].metadata)) == old(i.versions[k].metadata != nil && (key in i.versions[k].metadata)) && (i.versions[k].metadata != nil ==> i.versions[k].metadata[key] == old(i.versions[k].metadata[key])))
+
+// Mutate (C08: a key rotation recorded through Mutate takes effect; C09): the callback works on its own copy of
+// the key list - were the list shared with the reference copy, an in-place rotation (m.Keys[0] = newKey) would
+// change both, compare equal, and be dropped without a new version or an error.
+//@ func (*Identity).Mutate$1
+//@   requires forall k int :: { keys[k] } 0 <= k && k < len(keys) ==> keys[k] != nil && keys[k].public != nil
+//@   modifies nothing
+//@   opt trusted_frame
+//@   ensures [fresh-copy] len(result) == len(keys) && result != nil && fresh(result) && (forall k int :: { result[k] } 0 <= k && k < len(result) ==> result[k] != nil && result[k].public != nil)
+//@   loop 1
+//@     invariant result != nil && fresh(result) && len(result) == len(keys)
+//@     invariant forall k int :: { result[k] } 0 <= k && k <= rangeindex ==> result[k] != nil && result[k].public != nil
+//@     invariant forall k int :: { keys[k] } 0 <= k && k < len(keys) ==> keys[k] != nil && keys[k].public != nil
+//@ func (*Identity).Keys
+//@   requires [has-version] i != nil && len(i.versions) > 0
+//@   modifies nothing
+//@   ensures result == i.versions[len(i.versions) - 1].keys
+//@ func (*Identity).Mutate
+//@   props C08 C09
+//@   requires i != nil && len(i.versions) > 0 && i.versions[len(i.versions) - 1] != nil && (forall k int :: { i.versions[len(i.versions) - 1].keys[k] } 0 <= k && k < len(i.versions[len(i.versions) - 1].keys) ==> i.versions[len(i.versions) - 1].keys[k] != nil && i.versions[len(i.versions) - 1].keys[k].public != nil)
+//@   assert at `f(&mutated)` [callback-works-on-its-own-copy-of-the-keys] len(orig.Keys) > 0 ==> mutated.Keys != orig.Keys
+// the accessors read the last version
+//@ func (*Identity).Name
+//@   requires [has-version] i != nil && len(i.versions) > 0 && i.versions[len(i.versions) - 1] != nil
+//@   modifies nothing
+//@ func (*Identity).Email
+//@   requires [has-version] i != nil && len(i.versions) > 0 && i.versions[len(i.versions) - 1] != nil
+//@   modifies nothing
+//@ func (*Identity).Login
+//@   requires [has-version] i != nil && len(i.versions) > 0 && i.versions[len(i.versions) - 1] != nil
+//@   modifies nothing
+//@ func (*Identity).AvatarUrl
+//@   requires [has-version] i != nil && len(i.versions) > 0 && i.versions[len(i.versions) - 1] != nil
+//@   modifies nothing
